@@ -2,11 +2,11 @@ HOOKS = {
     "guard": "verif",
     "enable": "go build -tags verif (the harness in /verif/harness is built with -tags verif against /repo through a replace directive)",
     "baseline_off_cmd": "cd /repo && go test -mod=mod -json -vet=off -count=1 -timeout 25m ./...",
-    "source_commits": [],
+    "source_commits": ["15ed3a4"],
     "add_only": True,
 }
 NOTES = "See DESIGN.md. Every check: regenerates coq/Gen/Facts.v from /repo, rebuilds the property's Coq targets, re-runs Print Assumptions, rebuilds the harness against /repo's working tree, runs it, evaluates the Impl model on the same cases inside Coq."
 ALL = ["C%02d" % i for i in range(1, 21)]
 NA_REASONS = {}
 # properties whose check has been integrated and verified by the coordinator (others stay in not_applicable until then)
-READY = ["C01", "C02", "C04", "C05", "C09", "C12", "C13", "C14", "C16", "C17", "C18", "C20"]
+READY = ["C01", "C02", "C03", "C04", "C05", "C06", "C07", "C08", "C09", "C10", "C11", "C12", "C13", "C14", "C15", "C16", "C17", "C19", "C20"]
